@@ -21,6 +21,7 @@ NUC = "ACGTUN"
 def describe(ck):
     ck.rule("R13a", "detect_alphabet reads only msa->letter_freq (and the quiet flag) and writes only biotype / L; every writer of letter_freq adds to it or zeroes it")
     ck.rule("R13b", "the nucleotide model is seeded with A C G T U N in both cases, both models are case-closed and their loops cover the literals; only letters vote; each nucleotide letter weighs strictly more under the nucleotide model; the larger total selects the matching biotype")
+    ck.rule("R13d", "the histogram is fed exactly the characters the readers classify as residues or gap symbols - not names or other text (= R04a)")
     ck.rule("R13c", "the detected kind gates the alignment type (= R09b)")
     ck.not_decided += ["the quantitative premise 'at least a quarter protein-only letters => protein' (inequality between run-time weighted sums)"]
     ck.assumptions += ["C-locale isalpha"]
@@ -289,6 +290,15 @@ def run(ck, progs):
     for cfg, prog in progs.items():
         ck.attempt(r13a, ck, prog)
         ck.attempt(r13b, ck, prog)
+        from . import c04
+        b0 = len(ck.instances)
+        ck.attempt(c04.r04a, ck, prog)
+        for i in ck.instances[b0:]:
+            i["rule"] = "R13d"
+        for v in ck.violations:
+            if v["rule"] == "R04a":
+                v["rule"] = "R13d"
+                v["key"] = v["key"].replace("R04a", "R13d")
         before = len(ck.instances)
         ck.attempt(c09.r09b, ck, prog)
         for i in ck.instances[before:]:
